@@ -209,7 +209,12 @@ func c08Check(c c08Case) *Violation {
 		}
 		region := buildRegion(c.Segs, c.Comp, c.Bare)
 		var resized gts.Region
-		if pi := guard(func() { resized = region.Resize(c.Mod.toGts()) }); pi != nil {
+		if pi := guard(func() {
+			resized = region.Resize(c.Mod.toGts())
+			// judged after other regions were resized (a result must not live in memory the next call re-uses)
+			gts.Regions{gts.Segment{0, 2}, gts.Segment{3, 4}}.Resize(gts.HeadTail{0, 0})
+			region.Resize(gts.Head(0))
+		}); pi != nil {
 			return panicViolation(fmt.Sprintf("Resize(%s)", c.Mod.text()), pi)
 		}
 		what := fmt.Sprintf("region %v comp=%v resized by %s (slice [%d,%d) of %d)", c.Segs, c.Comp, c.Mod.text(), lo, hi, n)
